@@ -146,6 +146,7 @@ theorem PlatData.dec_enc (x : PlatData) (h : x.valid = true) (rest : Bytes) :
     obtain ⟨hl, hk⟩ := (validFrames_iff 6 x.nFrames fs).mp (List.all_eq_true.mp hpl fs hfs)
     rw [← hl]
     exact decRuns_run 6 fs r hk (by omega)))
+  step (D.guard_run _ _ hnd)
   rfl
 
 theorem PlatData.enc_length (x : PlatData) (h : x.valid = true) : x.enc.length = x.size := by
